@@ -89,6 +89,27 @@ CHECKS = {
              note=_TB + ' get_distance of the queried code by contract (symbolic distance); ages sampled {30, 47.5, 80, 100}; '
                   'reading of "nearest shorter/longer" = rows adjacent in the table scan that bracket the distance column.',
              technique='contract-based deductive verification (symbolic execution with float proxy, path-sensitive bounds -> LRA/NRA -> z3) + bounded stand-in for undecided paths'),
+ 'C02': dict(category='proof',
+             text='Per public method, per competition state, N in {1,2} athletes (N=3 for the richest cases; all of N=3 in the thorough tier), on '
+                  'a symbolic pre-state of REAL objects with proxy fields (cards and heights of unbounded symbolic length) satisfying the '
+                  'invariant: refused <=> the rules forbid; refusal raises RuleViolation and changes no field and not the log; acceptance yields '
+                  'exactly the state of the abstract rule machine (card, best, flags, places, state), logs exactly the call, preserves the invariant, '
+                  'never moves the state backwards; nothing accepted in finished/drawn. Every history follows by induction.',
+             note=_TB + ' N fixed per instance; induction over the history is the meta-argument; the padding loop is cut by a quantified invariant; '
+                  'refuted obligations are turned into concrete histories by a bounded lock-step search against the executable rule machine.',
+             technique='contract-based deductive verification: class invariant + per-method forward simulation against an abstract rule machine, symbolic heap (z3 arrays, LIA/LRA)'),
+ 'C03': dict(category='other',
+             text='Symbolic: places = standard competition ranking of the countback key, key = countback key of the card, best = max(best, bar), '
+                  'finished => exactly one first, drawn/jump-off conditions (C02 harness + lemmas on the rule machine); bounded: complete random '
+                  'competitions on the real class, terminal placings recomputed from the cards alone (incl. lowered jump-off bars). Level other '
+                  'because the terminal-state clause is bounded.',
+             note=_TB + ' N fixed per instance (1-3).', technique='contract-based deductive verification (per-method obligations, rule-machine lemmas in z3) + bounded stand-in for the terminal clause'),
+ 'C08': dict(category='other',
+             text='Symbolic: for every mutator and EVERY order of ranked_jumpers, log exactness (accepted call appended exactly, refused call '
+                  'changes nothing) and post-state = function of observable pre-state and argument (C02 harness) - replay equality by induction; '
+                  'bounded: from_actions replay, to_matrix/from_matrix round trip, trials, per-height interleavings on random competition prefixes.',
+             note=_TB + ' from_matrix/to_matrix and the interleaving clause are bounded only (labelled).',
+             technique='contract-based deductive verification (log exactness + determinism per method) + bounded stand-in (replay, card round trip, schedules)'),
 }
 _NYB = 'check not built yet in this build round (planned, see DESIGN.md §5); no claim is made'
-NOT_APPLICABLE = {p: _NYB for p in ['C02','C03','C07','C08','C10','C12','C16','C18']}
+NOT_APPLICABLE = {p: _NYB for p in ['C07','C10','C12','C16','C18']}
